@@ -123,6 +123,30 @@ func H_C10_page_selection() {
 	vReach("end")
 }
 
+// H_C10_reversed_range_alone: a reversed range names no page; it must not silently select the whole document.
+//
+//symgo:harness prop=C10 kernel=K1b-reversed-range noreplay=1
+//symgo:redirect (*github.com/tsawler/tabula/reader.Reader).PageCount vStubPageCount
+//symgo:desc page count symbolic in [1,5]; PageRange(a,b) with a > b, both symbolic in [-1,6], as the only selection or chained after Pages(p) with p in range (enumerated): alone, the selection is an error or empty - never pages that were not named; after Pages(p) the result is an error or exactly {p}
+func H_C10_reversed_range_alone() {
+	vPageCount = vAnyIntRange(1, 5)
+	a, b := vAnyIntRange(-1, 6), vAnyIntRange(-1, 6)
+	vAssume(a > b)
+	e := &Extractor{format: format.PDF, reader: &reader.Reader{}, readerOpened: true, options: defaultOptions()}
+	if vAnyIntIn(0, 1) == 0 {
+		sel := e.PageRange(a, b)
+		got, err := sel.resolvePages()
+		vAssert("reversed-range-selects-nothing-or-is-an-error", sel.err != nil || err != nil || len(got) == 0) // sel.err: the fail-fast error every terminal operation returns first
+	} else {
+		p := vAnyIntRange(1, 5)
+		vAssume(p <= vPageCount)
+		sel := e.Pages(p).PageRange(a, b)
+		got, err := sel.resolvePages()
+		vAssert("reversed-range-adds-nothing", sel.err != nil || err != nil || (len(got) == 1 && got[0] == p-1))
+	}
+	vReach("end")
+}
+
 // H_C10_copy_on_configure: deriving a configured extractor never changes the extractor it came from.
 //
 //symgo:harness prop=C10 kernel=K2-copy-on-configure noreplay=1
